@@ -809,6 +809,6 @@ LEVEL_NOTE = ("Trusted: Coq kernel/vm_compute; the hand-written models (str.repl
               "simplify_inv_subs (all chains to the length bound), sympy_simplify on crafted inputs and a real generation run; sympy str/sympify are exercised on the whole family, "
               "not proved; float exponent 0.333333333333333 agrees to 1e-12 only. Reals statements depend on the stdlib axioms sig_forall_dec and functional_extensionality_dep; "
               "all others are closed.")
-TECHNIQUE = ("Coq proofs over a translator-generated simplify_inv_subs (ast -> Gallina, refinement to the structural cancel) and hand-written models of the text pipeline (replace/literal_eval/csv/array_split) and of the cancellation loop with substitution semantics; "
+TECHNIQUE = ("Coq proofs over translator-generated simplify_inv_subs and get_all_dup (ast -> Gallina, refinement to the structural cancel / the model list) and hand-written models of the text pipeline (replace/literal_eval/csv/array_split) and of the cancellation loop with substitution semantics; "
              "finite family check by vm_compute with the bounds in the statement; correspondence by evaluating the model in Coq against the real code on the whole family, "
              "all short chains and real generation output")
